@@ -368,4 +368,110 @@ theorem cuboidCuboidFresh2_spec (pos12 : Iso2 K) (hq : UnitC pos12) (he1 he2 : V
     · rw [if_neg (fun h => hb h.1), if_neg (not_lt.mpr (le_of_lt hs1)), max_eq_left (not_lt.mp hb)]
       exact core' sq pos12 hq he1 he2 h1x h1y h2x h2y s1 _ m E1
 
+/-! ## the `-Real::MAX` hypotheses, the warm-start composition, non-vacuity -/
+
+private theorem rot_x_bound (m : Iso2 K) (h : UnitC m) (p : V2 K) :
+    letI := fieldNum K sq;
+    -(abs p.x + abs p.y) ≤ (m.rot p).x ∧ (m.rot p).x ≤ abs p.x + abs p.y ∧
+    -(abs p.x + abs p.y) ≤ (m.rot p).y ∧ (m.rot p).y ≤ abs p.x + abs p.y := by
+  unfold UnitC at h
+  have hre : abs m.re ≤ 1 := by
+    apply abs_le.mpr; constructor <;> nlinarith [mul_self_nonneg m.im, mul_self_nonneg (m.re - 1), mul_self_nonneg (m.re + 1)]
+  have him : abs m.im ≤ 1 := by
+    apply abs_le.mpr; constructor <;> nlinarith [mul_self_nonneg m.re, mul_self_nonneg (m.im - 1), mul_self_nonneg (m.im + 1)]
+  have a1 : abs (m.re * p.x) ≤ abs p.x := by rw [abs_mul]; nlinarith [abs_nonneg p.x, abs_nonneg m.re]
+  have a2 : abs (m.im * p.y) ≤ abs p.y := by rw [abs_mul]; nlinarith [abs_nonneg p.y, abs_nonneg m.im]
+  have a3 : abs (m.im * p.x) ≤ abs p.x := by rw [abs_mul]; nlinarith [abs_nonneg p.x, abs_nonneg m.im]
+  have a4 : abs (m.re * p.y) ≤ abs p.y := by rw [abs_mul]; nlinarith [abs_nonneg p.y, abs_nonneg m.re]
+  simp only [Iso2.rot]
+  have := abs_le.mp a1; have := abs_le.mp a2; have := abs_le.mp a3; have := abs_le.mp a4
+  refine ⟨?_, ?_, ?_, ?_⟩ <;> linarith
+
+/-- the hypothesis `-Real::MAX < separation` of `cuboidCuboidFresh2_spec` holds for all cuboids whose half-extents sum to less
+than `Real::MAX` (every finite input of the valid domain) -/
+theorem satOneway2_gt (pos12 : Iso2 K) (hq : UnitC pos12) (he1 he2 : V2 K) (h1x : 0 ≤ he1.x) (h1y : 0 ≤ he1.y)
+    (h2x : 0 ≤ he2.x) (h2y : 0 ≤ he2.y)
+    (hsz : letI := fieldNum K sq; he1.x + he1.y + he2.x + he2.y < fmax) :
+    letI := fieldNum K sq
+    letI := fieldCopysign K;
+    -fmax < (satOneway2 he1 he2 pos12).1 := by
+  -- the first candidate already exceeds `-(he2.x + he2.y) - he1.x`
+  have key : ∀ dir : V2 K, -(he2.x + he2.y) ≤ (@Iso2.rot K (fieldNum K sq) pos12
+      (@cuboidSupportPoint2 K (fieldCopysign K) he2 dir)).x ∧ (@Iso2.rot K (fieldNum K sq) pos12
+      (@cuboidSupportPoint2 K (fieldCopysign K) he2 dir)).x ≤ he2.x + he2.y := by
+    intro dir
+    obtain ⟨b1, b2, -, -⟩ := rot_x_bound sq pos12 hq (@cuboidSupportPoint2 K (fieldCopysign K) he2 dir)
+    obtain ⟨⟨⟨m1, m2⟩, m3, m4⟩, -⟩ := cuboidSupportPoint2_spec sq he2 dir h2x h2y
+    have e1 : abs (@cuboidSupportPoint2 K (fieldCopysign K) he2 dir).x ≤ he2.x := abs_le.mpr ⟨m1, m2⟩
+    have e2 : abs (@cuboidSupportPoint2 K (fieldCopysign K) he2 dir).y ≤ he2.y := abs_le.mpr ⟨m3, m4⟩
+    constructor <;> linarith
+  simp only [satOneway2, satStep2]
+  have k := key (@Iso2.invRot K (fieldNum K sq) pos12 (@V2.neg K (fieldNum K sq) (@V2.set K (@V2.zero K (fieldNum K sq)) 0
+    ((fieldCopysign K).copysign 1 (pos12.t.get 0)))))
+  have c0 : -(@fmax K (fieldNum K sq)) < (@V2.get K (@Iso2.act K (fieldNum K sq) pos12 (@cuboidSupportPoint2 K (fieldCopysign K) he2
+      (@Iso2.invRot K (fieldNum K sq) pos12 (@V2.neg K (fieldNum K sq) (@V2.set K (@V2.zero K (fieldNum K sq)) 0
+      ((fieldCopysign K).copysign 1 (pos12.t.get 0))))))) 0) * (fieldCopysign K).copysign 1 (pos12.t.get 0) - he1.get 0 := by
+    simp only [HasCopysign.copysign, abs_one, V2.get, Iso2.act, V2.add, if_true] at k ⊢
+    split_ifs at k ⊢ with h <;> linarith [k.1, k.2]
+  split_ifs with a b b
+  · exact lt_trans a b
+  · exact a
+  · exact absurd c0 a
+  · exact absurd c0 a
+
+/-- **`contact_manifold_cuboid_cuboid` (2-D) as a whole**: either the warm start succeeded and the result is exactly the manifold
+`try_update_contacts` produced (then `tuc2Default_sound` applies: same normals, cosine test, every contact re-measured with the
+`dist` identity, bounded motion), or it is the fresh computation `cuboidCuboidFresh2` (then `cuboidCuboidFresh2_spec` applies). -/
+theorem cuboidCuboid2_cases (pos12 : Iso2 K) (he1 he2 : V2 K) (pred : K) (m : Manifold2 K) :
+    letI := fieldNum K sq
+    letI := fieldCopysign K
+    ((tuc2Default pos12 m).1 = true ∧ cuboidCuboid2 pos12 he1 he2 pred m = (tuc2Default pos12 m).2) ∨
+    ((tuc2Default pos12 m).1 = false ∧
+      cuboidCuboid2 pos12 he1 he2 pred m = cuboidCuboidFresh2 pos12 he1 he2 pred (tuc2Default pos12 m).2) := by
+  simp only [cuboidCuboid2]
+  cases h : (@tuc2Default K (fieldNum K sq) pos12 m).1 <;> simp
+
+/-- **`cuboidCuboidFresh2_spec` on the valid domain**: the same conclusion with the two `-Real::MAX` hypotheses replaced by
+"the half-extents sum to less than `Real::MAX`". -/
+theorem cuboidCuboidFresh2_domain (pos12 : Iso2 K) (hq : UnitC pos12) (he1 he2 : V2 K)
+    (h1x : 0 ≤ he1.x) (h1y : 0 ≤ he1.y) (h2x : 0 ≤ he2.x) (h2y : 0 ≤ he2.y) (pred : K) (hp : 0 ≤ pred) (m : Manifold2 K)
+    (hsz : letI := fieldNum K sq; he1.x + he1.y + he2.x + he2.y < fmax) :
+    letI := fieldNum K sq
+    letI := fieldCopysign K
+    let s1 := (satOneway2 he1 he2 pos12).1
+    let s2 := (satOneway2 he2 he1 pos12.inverse).1
+    let m' := cuboidCuboidFresh2 pos12 he1 he2 pred m
+    (pred < s1 ∨ pred < s2 → m' = m.clear ∧ ∃ s n, pred < s ∧ SepExact sq pos12 he1 he2 s n) ∧
+    (¬(pred < s1 ∨ pred < s2) → CuboidManifoldGood sq pos12 he1 he2 (max s1 s2) m') :=
+  cuboidCuboidFresh2_spec sq pos12 hq he1 he2 h1x h1y h2x h2y pred hp m
+    (satOneway2_gt sq pos12 hq he1 he2 h1x h1y h2x h2y hsz)
+    (satOneway2_gt sq _ (unitC_inverse sq pos12 hq) he2 he1 h2x h2y h1x h1y (by linarith))
+
+/-! ### non-vacuity, evaluated over `ℚ`
+
+Cuboid 1 = `[-1,1]²`, cuboid 2 = half-extents `(1/2, 1/2)` rotated by `(3/5, 4/5)` (≈ 53°) with centre `(2, 1/2)`: the SAT
+separations are `3/10` (axis `+x` of cuboid 1) and `-3/10` (axes of cuboid 2).  Prediction `1/4`: cleared.  Prediction `1/2`: two
+contacts on the face `x = 1`, the corner of cuboid 2 at gap `3/10` and the clipped end of its face at gap `3/4`.
+With the roles exchanged (pose inverted) the reference axis comes from the SECOND cuboid (`best_sep = (sep2.0, pos12 * -sep2.1)`):
+normal `(-3/5, 4/5)`, same two gaps. -/
+private def exBoxA (pred : ℚ) : Manifold2 ℚ :=
+  cuboidCuboidFresh2 ⟨3/5, 4/5, ⟨2, 1/2⟩⟩ ⟨1, 1⟩ ⟨1/2, 1/2⟩ pred Manifold2.new
+private def exBoxB : Manifold2 ℚ :=
+  cuboidCuboidFresh2 ⟨3/5, -4/5, ⟨-8/5, 13/10⟩⟩ ⟨1/2, 1/2⟩ ⟨1, 1⟩ (1/2) Manifold2.new
+
+set_option exponentiation.threshold 2000 in
+/-- the hypotheses of `cuboidCuboidFresh2_domain` / `satOneway2_spec` / `faceFace2_spec` are satisfiable; the cleared branch, the
+contact branch with the reference axis from cuboid 1, and the contact branch with the reference axis from cuboid 2 are all reached -/
+example : UnitC (⟨3/5, 4/5, ⟨2, 1/2⟩⟩ : Iso2 ℚ) ∧ UnitC (⟨3/5, -4/5, ⟨-8/5, 13/10⟩⟩ : Iso2 ℚ) ∧
+    (1 : ℚ) + 1 + 1/2 + 1/2 < fmax ∧
+    (fun r : ℚ × V2 ℚ => (r.1, r.2.x, r.2.y)) (satOneway2 (⟨1, 1⟩ : V2 ℚ) ⟨1/2, 1/2⟩ ⟨3/5, 4/5, ⟨2, 1/2⟩⟩) = (3/10, 1, 0) ∧
+    (exBoxA (1/4)).points.length = 0 ∧
+    (exBoxA (1/2)).points.map (fun c => (c.p1.x, c.p1.y, c.p2.x, c.p2.y, c.dist)) =
+      [(1, 2/5, -1/2, 1/2, 3/10), (1, 1, 1/4, 1/2, 3/4)] ∧
+    (fun m : Manifold2 ℚ => (m.n1.x, m.n1.y, m.n2.x, m.n2.y)) (exBoxA (1/2)) = (1, 0, -3/5, 4/5) ∧
+    exBoxB.points.map (fun c => (c.p1.x, c.p1.y, c.p2.x, c.p2.y, c.dist)) =
+      [(1/4, 1/2, 1, 1, 3/4), (-1/2, 1/2, 1, 2/5, 3/10)] ∧
+    (fun m : Manifold2 ℚ => (m.n1.x, m.n1.y, m.n2.x, m.n2.y)) exBoxB = (-3/5, 4/5, 1, 0) := by
+  refine ⟨by norm_num [UnitC], by norm_num [UnitC], by norm_num [fmax, Num.ofRat], ?_, ?_, ?_, ?_, ?_, ?_⟩ <;> decide +kernel
+
 end C14
